@@ -103,7 +103,11 @@ def make_seeds():
             a = asm.assemble(src, t, flavour="rel", name="c17s", outname=EXT[t])
             if a.kind != "ok" or a.status != 0 or not a.file:
                 raise RuntimeError("seed %s/%s does not assemble: %s" % (pname, t, a.out[-300:]))
-            seeds["%s.%s" % (pname, t)] = (EXT[t], a.file)
+            blob = a.file
+            if t == "srec" and blob.startswith(b"S0"):
+                # the header record carries the time of the run; a fixed one keeps the case space identical from run to run
+                blob = b"S00600004844521B\n" + blob.split(b"\n", 1)[1]
+            seeds["%s.%s" % (pname, t)] = (EXT[t], blob)
     seeds["hand.txt"] = ("f.txt", TI_TXT.encode())
     seeds["hand64.elf"] = ("f.elf", elf64_seed())
     seeds["empty.bin"] = ("f.bin", b"")
